@@ -333,8 +333,8 @@ def run(tier, seed):
                 'value lengths 0..3, x 3 packagings x 2- and 4-octet AS; NOTIFICATION: all 65536 (code, subcode) x data length '
                 '{0,1,2,20}; ROUTE-REFRESH: 16 AFI/SAFI x reserved x both types; KEEPALIVE. distinct = (shape class, capability kinds)'
                 % (4 if tier == 'thorough' else 3),
-        'samples': [{'half': 'reference', 'caps': ['mp1/1', 'as4', 'unknown67/2'], 'packaging': 'mixed', 'asn': 4200000000},
-                    {'half': 'round-trip', 'asn': 65535, 'hold': 0, 'caps': {}}],
+        'samples': [{'half': 'round-trip', 'asn': c[0], 'hold': c[1], 'bgp_id': c[2], 'caps': c[3]} for c in report.pick(rt, seed, 2)]
+        + [{'half': 'reference', 'caps': [cap_items()[i][0] for i in c[0]], 'packaging': c[1], 'asn': c[2]} for c in report.pick(rf, seed, 2)],
         'roundtrip_cases': len(rt), 'reference_cases': len(rf), 'exhaustive': True, 'violation_keys': summary,
     }
     report.write_evidence(PROP, tier, seed, 'exploration', cov,
